@@ -20,7 +20,7 @@ for d in sorted(glob.glob(V+'/C*_m*')):
     conf=m.get('confirmed_by_verifier_author',{}).get('result','(confirmation pending)')
     rows.append((k, ', '.join(os.path.basename(f) for f in files)+' '+fn, str(what)[:160].replace('\n',' ').replace('|','/'), v.get('status','?'), v.get('caught_by',''), v.get('note',''), conf.replace('RESULT ','')))
 with open(V+'/README.md','w') as f:
-    f.write('# Seeded changes\n\nEach directory holds `patch.diff`, the demonstration (`demo.c` / `demo.sh` + inputs), `run.txt` and `meta.json`.\nThey were written by sub-agents that saw only the property text and a scratch worktree; none is committed in /repo.\nTo run a check against one: `git -C /repo apply seeded/<id>/patch.diff; ./check <property> quick; git -C /repo checkout -- .`\n\n')
+    f.write('# Seeded changes\n\nEach directory holds `patch.diff`, the demonstration (`demo.c` / `demo.sh` + inputs), `run.txt` and `meta.json`.\nThey were written by sub-agents that saw only the property text and a scratch worktree; none is committed in /repo.\nTo run a check against one: `git -C /repo apply seeded/<id>/patch.diff; ./check <property> quick; git -C /repo checkout -- .`, or, without touching /repo, `tools/seed_check.sh <id> <obligation,...>` (applies the patch to a scratch copy and points the driver at it).\n\n')
     f.write('| seed | where | needs to manifest | verdict | obligation(s) | note | confirmation (demo / build / 82 tests) |\n|---|---|---|---|---|---|---|\n')
     for r in rows: f.write('| '+' | '.join(r)+' |\n')
     n=len(rows); c=sum(1 for r in rows if r[3]=='caught')
